@@ -27,7 +27,7 @@ CORE_RE='^src/(opnmidi|wopn/)'
 DEFS="-DENABLE_END_SILENCE_SKIPPING -DOPNMIDI_MIDI2VGM -DNDEBUG -DOPNMIDI_VERIF"
 INC="-I$REPO/include -I$REPO/src"
 case $VARIANT in
-  asan) SAN="-fsanitize=address -fno-omit-frame-pointer -O1 -gline-tables-only"; CORESAN="-fsanitize=bounds,vla-bound,shift-exponent -fno-sanitize-recover=bounds,vla-bound,shift-exponent";;
+  asan) SAN="-fsanitize=address -fno-omit-frame-pointer -O1 -gline-tables-only -D_GLIBCXX_SANITIZE_VECTOR"; CORESAN="-fsanitize=bounds,vla-bound,shift-exponent -fno-sanitize-recover=bounds,vla-bound,shift-exponent";;
   tsan) SAN="-fsanitize=thread -fno-omit-frame-pointer -O1 -gline-tables-only"; CORESAN="";;
   fast) SAN="-O2 -gline-tables-only"; CORESAN="";;
   dbg) SAN="-O0 -g"; CORESAN="";;
